@@ -324,7 +324,9 @@ let () =
             (* P:hex of a slash-joined relative path; P:- is the working directory *)
             let h = after_colon tok in
             if h = "-" then []
-            else List.map (fun c -> List.map n_of_int (scalars_of_bytes c))
+            else
+              (* path components are byte strings (a file name need not be UTF-8): one model character per byte *)
+              List.map (fun c -> List.init (String.length c) (fun i -> n_of_int (Char.code c.[i])))
                    (List.filter (fun c -> c <> "") (String.split_on_char '/' (bytes_of_hex h))) in
           let shape = next t in
           let ip = b (next t) in
@@ -369,7 +371,7 @@ let () =
             | None -> missing := true; None in
           let res = run f inv fs in
           let st = res.r_state in
-          let pstr p = "P:" ^ (let s = String.concat "/" (List.map (fun c -> bytes_of_hex (hex_of_str c)) p) in
+          let pstr p = "P:" ^ (let s = String.concat "/" (List.map (fun c -> String.init (List.length c) (fun i -> Char.chr (int_of_n (List.nth c i) land 255))) p) in
                                if s = "" then "-" else
                                let bb = Buffer.create 16 in String.iter (fun ch -> Buffer.add_string bb (Printf.sprintf "%02x" (Char.code ch))) s; Buffer.contents bb) in
           let buf = Buffer.create 256 in
